@@ -131,7 +131,7 @@ impl<S: Service> PubSub<S> {
             let b = n.as_ref().unwrap().service_builder(&service_name()).publish_subscribe::<u64>();
             svcs.push(Some(if i == 0 { b.create().expect("create service") } else { b.open().expect("open service") }));
         }
-        let publisher = svcs[0].as_ref().unwrap().publisher_builder().create().expect("publisher");
+        let publisher = svcs[0].as_ref().unwrap().publisher_builder().max_loaned_samples(4).create().expect("publisher");
         let subscriber = svcs[nn - 1].as_ref().unwrap().subscriber_builder().create().expect("subscriber");
         publisher.loan_uninit().expect("loan").write_payload(CANARY_SENT).send().expect("send");
         let sample = subscriber.receive().expect("receive").expect("a sample");
@@ -184,9 +184,16 @@ impl<S: Service> Scenario for PubSub<S> {
         }
         match k - 2 * nn {
             0 => {
+                // three loans at once: the allocator hands out free chunks LIFO, a chunk that was
+                // reclaimed behind a live Sample's back is only reached by the second/third loan
                 let p = self.publisher.as_ref().unwrap();
-                let l = res(p.loan_uninit())?;
-                res(l.write_payload(7000 + round).send())?;
+                res(res(p.loan_uninit())?.write_payload(7000 + round).send())?; // lets the publisher update its connections
+                let l1 = res(p.loan_uninit())?.write_payload(7000 + round);
+                let l2 = res(p.loan_uninit())?.write_payload(7000 + round);
+                let l3 = res(p.loan_uninit())?.write_payload(7000 + round);
+                res(l1.send())?;
+                res(l2.send())?;
+                res(l3.send())?;
                 Ok(())
             }
             1 => {
@@ -301,11 +308,11 @@ impl<S: Service> ReqRes<S> {
         let nodes = make_nodes::<S>(cfg, nn);
         let mut svcs = vec![];
         for (i, n) in nodes.iter().enumerate() {
-            let b = n.as_ref().unwrap().service_builder(&service_name()).request_response::<u64, u64>();
+            let b = n.as_ref().unwrap().service_builder(&service_name()).request_response::<u64, u64>().max_loaned_requests(4).max_active_requests_per_client(8);
             svcs.push(Some(if i == 0 { b.create().expect("create service") } else { b.open().expect("open service") }));
         }
         let client = svcs[0].as_ref().unwrap().client_builder().create().expect("client");
-        let server = svcs[nn - 1].as_ref().unwrap().server_builder().create().expect("server");
+        let server = svcs[nn - 1].as_ref().unwrap().server_builder().max_loaned_responses_per_request(4).create().expect("server");
         let pending = client.loan_uninit().expect("loan").write_payload(CANARY_REQ).send().expect("send request");
         let active = server.receive().expect("receive").expect("a request");
         let has_response = nn == 1; // at most 8 objects
@@ -367,8 +374,13 @@ impl<S: Service> Scenario for ReqRes<S> {
         match k - 2 * nn {
             0 => {
                 let c = self.client.as_ref().unwrap();
-                let p = res(res(c.loan_uninit())?.write_payload(8000 + round).send())?;
-                drop(p);
+                drop(res(res(c.loan_uninit())?.write_payload(8000 + round).send())?);
+                let r1 = res(c.loan_uninit())?.write_payload(8000 + round);
+                let r2 = res(c.loan_uninit())?.write_payload(8000 + round);
+                let r3 = res(c.loan_uninit())?.write_payload(8000 + round);
+                drop(res(r1.send())?);
+                drop(res(r2.send())?);
+                drop(res(r3.send())?);
                 Ok(())
             }
             1 => {
@@ -391,6 +403,12 @@ impl<S: Service> Scenario for ReqRes<S> {
                 let a = self.active.as_ref().unwrap();
                 if *a.payload() != CANARY_REQ { return Err(format!("canary:{:x}", *a.payload())); }
                 res(res(a.loan_uninit())?.write_payload(9000 + round).send())?;
+                let r1 = res(a.loan_uninit())?.write_payload(9000 + round);
+                let r2 = res(a.loan_uninit())?.write_payload(9000 + round);
+                let r3 = res(a.loan_uninit())?.write_payload(9000 + round);
+                res(r1.send())?;
+                res(r2.send())?;
+                res(r3.send())?;
                 Ok(())
             }
             4 => {
